@@ -427,6 +427,13 @@ impl MemoHeader {
 
         // A pending write can cancel a fixpoint iteration without advancing the revision.
         // Provisional results from the abandoned execution must not be reused.
+        #[cfg(salsa_rs_salsa_verif)]
+        crate::verif_conc::emit(crate::verif_conc::Ev::CountGate {
+            cur_count: zalsa.runtime().cancellation_count(),
+            stamp: self.revisions.iteration().verif_bits(),
+            pass: self.revisions.iteration().cancellation_count()
+                == zalsa.runtime().cancellation_count(),
+        });
         if self.revisions.iteration().cancellation_count() != zalsa.runtime().cancellation_count() {
             return false;
         }
